@@ -67,6 +67,7 @@ def cases(tier: str, base_seed: int):  # noqa: ANN201
     for pre in prefixes:
         n += 1
         yield {"scenario": "api", "seed": base_seed + n, "knobs": {}, "prefix": pre, "depth": depth, "alpha": alpha}
+        yield {"scenario": "api", "seed": base_seed + n, "knobs": {}, "prefix": pre, "depth": depth, "alpha": alpha, "hops": 2}
         if n % 4 == 0:
             net_i += 1
             yield _net_case(base_seed + 5000 + net_i)
@@ -74,7 +75,7 @@ def cases(tier: str, base_seed: int):  # noqa: ANN201
         yield _net_case(base_seed + 9000 + i)
         if i % 3 == 0:
             yield {"scenario": "api", "seed": base_seed + 50000 + i, "knobs": {}, "prefix": "", "depth": 0, "alpha": ALPHA,
-                   "random": {"n": 1500, "min": depth + 1, "max": 10}}
+                   "random": {"n": 1500, "min": depth + 1, "max": 10}, "hops": 1 + (i // 3) % 2}
 
 
 def _net_case(seed: int) -> dict:
@@ -145,20 +146,23 @@ def run_api(c: Case, case: dict) -> dict:  # noqa: C901, PLR0915
             self.created += 1
             return self.new(goal_hops, exit_flags or [], ready=False)
 
-        def new(self, goal_hops, flags, ready) -> Circuit:  # noqa: ANN001
+        def new(self, goal_hops, flags, ready, first_flags=None) -> Circuit:  # noqa: ANN001
             self.nid += 1
             circ = Circuit(self.nid, goal_hops)
             self.circuits[self.nid] = circ
+            circ.true_exit_flags = list(flags or [])       # ground truth for the oracle: the flags of the LAST hop
             if ready:
                 for i in range(goal_hops):
-                    circ.add_hop(Hop(peer, flags=(None if flags is None else list(flags)) if i == goal_hops - 1 else [1]))
+                    circ.add_hop(Hop(peer, flags=(None if flags is None else list(flags)) if i == goal_hops - 1 else
+                                     list(first_flags) if i == 0 and first_flags is not None else [1]))
             else:
                 circ.pending_flags = list(flags or [])
             return circ
 
         def send_data(self, target, circuit_id, dest, src, data) -> None:  # noqa: ANN001
             circ = self.circuits.get(circuit_id)
-            self.sent.append((circuit_id, None if circ is None else (circ.state, circ.goal_hops, list(circ.exit_flags)), dest, data))
+            self.sent.append((circuit_id, None if circ is None else (circ.state, circ.goal_hops, list(getattr(circ, "true_exit_flags", circ.exit_flags))),
+                              dest, data))
 
     alpha = case.get("alpha", ALPHA)
     depth = case["depth"]
@@ -169,7 +173,7 @@ def run_api(c: Case, case: dict) -> dict:  # noqa: C901, PLR0915
         raw = Raw()
         ep = TunnelEndpoint(raw)
         tc = TC()
-        hops = 1
+        hops = int(case.get("hops", 1))
         ep.set_tunnel_community(tc, hops)
         ep.set_anonymity(ANON_PREFIX, True)
         anon_on = True
@@ -234,6 +238,7 @@ def run_api(c: Case, case: dict) -> dict:  # noqa: C901, PLR0915
                 pend = [x for x in tc.circuits.values() if x.state == "EXTENDING" and x.goal_hops == hops]
                 if pend:
                     x = pend[0]
+                    x.true_exit_flags = [1, EXIT_IPV8]
                     for i in range(x.goal_hops):
                         x.add_hop(Hop(peer, flags=[1, EXIT_IPV8] if i == x.goal_hops - 1 else [1]))
                 else:
@@ -242,7 +247,8 @@ def run_api(c: Case, case: dict) -> dict:  # noqa: C901, PLR0915
                 if k % 3 == 1:
                     tc.new(hops + 1, [1, EXIT_IPV8], ready=True)      # wrong length
                 elif k % 3 == 2:
-                    tc.new(hops, [1, 2], ready=True)                  # exit without the IPv8 flag
+                    # exit without the IPv8 flag (with 2+ hops: behind a FIRST hop that is an IPv8 exit itself)
+                    tc.new(hops, [1, 2], ready=True, first_flags=[1, EXIT_IPV8])
                 else:
                     tc.new(hops, None, ready=True)                    # exit whose flags the sender never learnt
                 world.probe("wrong_circuit_not_used")
